@@ -259,7 +259,10 @@ package notify
 //@   requires hashFn != nil
 //@   assumes forall i int :: 0 <= i && i < len(alerts) ==> alerts[i] != nil
 //@   after call dynamic:param:hashFn assume res0 == hashOf(arg0)
-//@   after call Alert).Resolved assume res0 == resolvedNow(alerts[rangeindex1 + 1])
+//@   after call Alert).Resolved$ assume res0 == resolvedNow(alerts[rangeindex1 + 1]) && (arg0.EndsAt == 0 ==> !res0) && (arg0.EndsAt != 0 && arg0.EndsAt <= clock() ==> res0)
+//@   ensures [what-the-flush-froze-as-resolved-is-resolved] forall i int :: 0 <= i && i < len(alerts) && alerts[i].EndsAt != 0 && alerts[i].EndsAt <= old(clock()) ==> hashOf(alerts[i]) in result3
+//@   ensures [open-ended-alerts-are-firing] forall i int :: 0 <= i && i < len(alerts) && alerts[i].EndsAt == 0 ==> hashOf(alerts[i]) in result2
+//@   ensures [read-at-the-wall-clock-once-per-alert] count("Alert).Resolved$") == len(alerts)
 //@   at call dynamic:param:hashFn assert [hash-each-alert] arg0 == alerts[rangeindex1 + 1]
 //@   ensures [firing-hashes] forall i int :: 0 <= i && i < len(alerts) && !resolvedNow(alerts[i]) ==> hashOf(alerts[i]) in result2
 //@   ensures [resolved-hashes] forall i int :: 0 <= i && i < len(alerts) && resolvedNow(alerts[i]) ==> hashOf(alerts[i]) in result3
@@ -267,11 +270,14 @@ package notify
 //@   ensures [only-resolved] forall h uint64 :: (h in result3) ==> (exists k int :: 0 <= k && k < len(alerts) && resolvedNow(alerts[k]) && hashOf(alerts[k]) == h)
 //@   ensures [lists-agree-with-sets] len(result0) + len(result1) == len(alerts) && result2 != nil && result3 != nil
 //@   loop 1 invariant rangeindex < len(alerts) && fresh(firingSet) && fresh(resolvedSet) && firingSet != resolvedSet && len(firing) + len(resolved) == rangeindex + 1 && fresh(firing) && fresh(resolved)
+//@   loop 1 invariant count("Alert).Resolved$") == rangeindex + 1 && clock() >= old(clock())
+//@   loop 1 invariant forall i int :: 0 <= i && i <= rangeindex && alerts[i].EndsAt != 0 && alerts[i].EndsAt <= old(clock()) ==> resolvedNow(alerts[i])
+//@   loop 1 invariant forall i int :: 0 <= i && i <= rangeindex && alerts[i].EndsAt == 0 ==> !resolvedNow(alerts[i])
 //@   loop 1 invariant forall i int :: 0 <= i && i <= rangeindex && !resolvedNow(alerts[i]) ==> hashOf(alerts[i]) in firingSet
 //@   loop 1 invariant forall i int :: 0 <= i && i <= rangeindex && resolvedNow(alerts[i]) ==> hashOf(alerts[i]) in resolvedSet
 //@   loop 1 invariant forall h uint64 :: (h in firingSet) ==> (exists k int :: 0 <= k && k <= rangeindex && !resolvedNow(alerts[k]) && hashOf(alerts[k]) == h)
 //@   loop 1 invariant forall h uint64 :: (h in resolvedSet) ==> (exists k int :: 0 <= k && k <= rangeindex && resolvedNow(alerts[k]) && hashOf(alerts[k]) == h)
-//@   noeffect dynamic:param:hashFn Alert).Resolved
+//@   noeffect dynamic:param:hashFn Alert).Resolved$
 //@   assigns nothing
 //@ func (*DedupStage).Exec
 //@   props C04
